@@ -22,6 +22,7 @@ type knownEntry struct {
 	Harness  string `json:"harness,omitempty"`
 	JobRe    string `json:"job_regex,omitempty"`
 	IDRe     string `json:"id_regex,omitempty"`
+	DetailRe string `json:"detail_regex,omitempty"`
 	Kind     string `json:"kind,omitempty"`
 	What     string `json:"what"`
 	Witness  string `json:"witness,omitempty"`
@@ -62,6 +63,11 @@ func (k *knownEntry) matches(prop string, f *interp.Finding) bool {
 	}
 	if k.IDRe != "" {
 		if ok, _ := regexp.MatchString(k.IDRe, f.ID); !ok {
+			return false
+		}
+	}
+	if k.DetailRe != "" {
+		if ok, _ := regexp.MatchString(k.DetailRe, f.Detail); !ok {
 			return false
 		}
 	}
@@ -276,6 +282,9 @@ func cmdCheck(args []string) int {
 				continue
 			}
 			k := fkey{f.Job, f.Kind, f.ID}
+			if f.Kind == "race" || f.Kind == "frozen-store" {
+				k.id = f.Detail
+			}
 			perKey[k]++
 			if perKey[k] > 2 {
 				continue
@@ -286,7 +295,7 @@ func cmdCheck(args []string) int {
 				fmt.Fprintln(os.Stderr, err)
 				return 3
 			}
-			race := f.Kind == "race"
+			race := f.Kind == "race" || f.Kind == "frozen-store"
 			if race && !raceBuilt {
 				if _, err := buildNative(true); err != nil {
 					fmt.Fprintln(os.Stderr, err)
@@ -459,7 +468,7 @@ func cmdReplay(args []string) int {
 	}
 	kind, id, _ := strings.Cut(rf.Expect, ":")
 	f := &interp.Finding{Harness: rf.Harness, Job: rf.Job, Kind: kind, ID: id}
-	race := kind == "race"
+	race := kind == "race" || kind == "frozen-store"
 	if race {
 		if _, err := buildNative(true); err != nil {
 			fmt.Fprintln(os.Stderr, err)
